@@ -302,15 +302,15 @@ def obligations(tier):
         for op in ("tx", "rx"):
             b2 = dict(b, peer_chunks="symbolic split of the stream into %d chunks" % K) if op == "rx" else b
             out.append(Ob("client/%s/%s" % (op, mode), h_client, dict(kw, op=op),
-                          budget=400 if quick else 1800, covers=["multi-packet"], bounds=b2))
+                          budget=400 if quick else 3600, covers=["multi-packet"], bounds=b2))
             # no cover label on shards in which every path fails on the unchanged tree (a label only counts on
             # confirmed paths); packet counts 1..P are symbolic, so multi-packet paths exist by construction
             out.append(Ob("server/%s/%s" % (op, mode), h_server, dict(kw, op=op),
-                          budget=400 if quick else 1800, covers=["multi-packet"] if op == "rx" else [], bounds=b2))
+                          budget=400 if quick else 3600, covers=["multi-packet"] if op == "rx" else [], bounds=b2))
         pk = 2 if quick else 3
         plims = [0, 1, None]
         out.append(Ob("pair/%s" % mode, h_pair, dict(mode=mode, P=P, K=pk, lims=plims, maxlen=2),
-                      budget=600 if quick else 1800,
+                      budget=600 if quick else 3600,
                       bounds=dict(b, schedule_steps=pk, packet_size="1..2 (symbolic)" if mode == "raw" else "4 (framed double)",
                                   transfer_limit="%s per step" % (plims,),
                                   interleaving="client | server service call per step (selector)")))
